@@ -328,7 +328,11 @@ def check_property(pid, tier, seed):
     unstable = []
     for alt in P["alternatives"]:
         nec_refs = expand_refs(vr, alt.get("clauses", []), alt.get("exclude", ()))
-        sup_refs = set(expand_refs(vr, alt.get("supporting", []), alt.get("exclude", ()))) - set(nec_refs)
+        # clauses labelled `dead_*` describe a branch no call site of the crate reaches (e.g. Input::iter on a label): a change there is not
+        # observable through the API, so their failure alone is never a violation (supporting: decided on the real code)
+        dead = [r for r in nec_refs if r.split("|", 1)[1].startswith("dead_")]
+        nec_refs = [r for r in nec_refs if r not in dead]
+        sup_refs = (set(expand_refs(vr, alt.get("supporting", []), alt.get("exclude", ()))) | set(dead)) - set(nec_refs)
         refs = nec_refs + sorted(sup_refs)
         needed_fns = sorted(set(r.split("|")[0] for r in refs))
         failed = []        # necessary obligations that failed verification: the violation
@@ -550,6 +554,8 @@ def write_evidence(pid, tier, seed, P, vr, alt_reports, holds, violations, known
         f"verus/prelude.rs: assumed contracts of generic-array/typenum, digest/hmac/hkdf, rand_core, subtle, voprf and the trait-level KeGroup/SecretKey/Ksf contracts ({main['prelude_assumptions']} external_body/admit/assume_specification items)",
         "verus/spec_rfc.rs: transcription of RFC 9807 / RFC 9497 formulas (oracle)",
         "R12: derived Clone impls are field-wise; R9: CS::KeyExchange = TripleDh (sealed trait)",
+        "functions whose contract Verus assumes (`assume_external` in contracts/*.vc; body outside the extraction rules): " + (", ".join(main["external"]) or "none")
+        + " — serialization::i2osp is proved by Kani (leaf::i2osp_u1_exact, i2osp_u2_exact: loop-free, all usize) for L = U1, U2, the only instantiations (anchor i2osp_instantiations)",
         "items dropped by extraction (not modelled): " + "; ".join(main["dropped"] or []),
     ]
     ev = {
